@@ -2184,7 +2184,7 @@ void SoPlexBase<R>::changeRowReal(int i, const LPRowBase<R>& lprow)
    if(intParam(SoPlexBase<R>::SYNCMODE) == SYNCMODE_AUTO)
    {
       _rationalLP->changeRow(i, lprow);
-      _rowTypes[i] = _rangeTypeReal(lprow.lhs(), lprow.rhs());
+      _rowTypes[i] = _rangeTypeRational(_rationalLP->lhs(i), _rationalLP->rhs(i));
       _completeRangeTypesRational();
    }
 
@@ -2339,7 +2339,7 @@ void SoPlexBase<R>::changeRangeReal(const VectorBase<R>& lhs, const VectorBase<R
       _rationalLP->changeRange(VectorRational(lhs), VectorRational(rhs));
 
       for(int i = 0; i < numRowsRational(); i++)
-         _rowTypes[i] = _rangeTypeReal(lhs[i], rhs[i]);
+         _rowTypes[i] = _rangeTypeRational(_rationalLP->lhs(i), _rationalLP->rhs(i));
    }
 
    _invalidateSolution();
@@ -2358,7 +2358,7 @@ void SoPlexBase<R>::changeRangeReal(int i, const R& lhs, const R& rhs)
    if(intParam(SoPlexBase<R>::SYNCMODE) == SYNCMODE_AUTO)
    {
       _rationalLP->changeRange(i, lhs, rhs);
-      _rowTypes[i] = _rangeTypeReal(lhs, rhs);
+      _rowTypes[i] = _rangeTypeRational(_rationalLP->lhs(i), _rationalLP->rhs(i));
    }
 
    _invalidateSolution();
@@ -2377,7 +2377,7 @@ void SoPlexBase<R>::changeColReal(int i, const LPColReal& lpcol)
    if(intParam(SoPlexBase<R>::SYNCMODE) == SYNCMODE_AUTO)
    {
       _rationalLP->changeCol(i, lpcol);
-      _colTypes[i] = _rangeTypeReal(lpcol.lower(), lpcol.upper());
+      _colTypes[i] = _rangeTypeRational(_rationalLP->lower(i), _rationalLP->upper(i));
       _completeRangeTypesRational();
    }
 
@@ -2480,7 +2480,7 @@ void SoPlexBase<R>::changeBoundsReal(const VectorBase<R>& lower, const VectorBas
       _rationalLP->changeBounds(VectorRational(lower), VectorRational(upper));
 
       for(int i = 0; i < numColsRational(); i++)
-         _colTypes[i] = _rangeTypeReal(lower[i], upper[i]);
+         _colTypes[i] = _rangeTypeRational(_rationalLP->lower(i), _rationalLP->upper(i));
    }
 
    _invalidateSolution();
@@ -2499,7 +2499,7 @@ void SoPlexBase<R>::changeBoundsReal(int i, const R& lower, const R& upper)
    if(intParam(SoPlexBase<R>::SYNCMODE) == SYNCMODE_AUTO)
    {
       _rationalLP->changeBounds(i, lower, upper);
-      _colTypes[i] = _rangeTypeReal(lower, upper);
+      _colTypes[i] = _rangeTypeRational(_rationalLP->lower(i), _rationalLP->upper(i));
    }
 
    _invalidateSolution();
